@@ -76,7 +76,12 @@ def make(ctx, cls, k):
                 m = 0       # a member with no samples
             if k % 6 == 5:
                 m = 1       # as many samples in total as members: stored arrays have the length of the metadata
-            tt = farr(sorted(rng.sample(range(0, 60), m)), SC)
+            tl = sorted(rng.sample(range(0, 60), m))
+            if with_data and k % 4 == 1 and j == 0:
+                # many samples sharing their timestamps (each of 20 instants three times): the writer pools all members by
+                # time - the values of one member at one instant must come back in their own order
+                tl = sorted(rng.sample(range(0, 60), 20) * 3); m = len(tl)
+            tt = farr(tl, SC)
             mem[kk] = nap.Tsd(tt, np.arange(m) + 10.0 * j + 1) if with_data else nap.Ts(tt)
         md = pd.DataFrame({"g_num": [float(x) * 2 for x in sorted(keys)], "g_str": ["k%d" % x for x in sorted(keys)]}, index=sorted(keys)) if k % 3 else None
         return nap.TsGroup(mem, time_support=iset([0], [64], SC), metadata=md)
@@ -150,6 +155,24 @@ def run(ctx):
                         diff = [kk for kk in want if got.get(kk) != want[kk]]
                         ctx.fail("oracle", "%s(save(x)) != x : differs in %s" % (how, diff), inp, impl={kk: got.get(kk) for kk in diff},
                                  expected={kk: want[kk] for kk in diff})
+                # the SAME Folder instance saves another object under a name it already holds, then loads: the last saved object
+                if k % 5 == 2:
+                    try:
+                        x2 = make(ctx, cls, k + 1)
+                        d2 = describe(x2)
+                        if d2.get("t") == [] and d2.get("sup") and d2["sup"][0]:
+                            raise StopIteration      # an object of the open finding's class (no sample, non-empty support): covered above
+                        nm = "ow_%s" % cls
+                        fol.save(nm, x, "first"); fol.save(nm, x2, "second")
+                        fol.load()
+                        got2 = describe(fol[nm])
+                        if got2 != describe(x2):
+                            ctx.fail("oracle", "Folder: load() after saving twice under one name does not return the last saved object",
+                                     dict(inp, second=describe(x2)), impl=got2)
+                    except StopIteration:
+                        pass
+                    except Exception as e:
+                        ctx.fail("oracle", "Folder: save twice under one name, then load() raised %r" % (e,), inp)
                 if cls in ("Ts", "Tsd", "TsdFrame", "TsdTensor"):
                     y = nap.load_file(p)
                     lines.append("snew %s %s %s" % (enc(ns_arr(raw["t"])), enc(range(len(raw["t"]))),
@@ -166,5 +189,5 @@ def run(ctx):
 
 
 def replay(ctx, rec):
-    print("re-run `./check C11 quick` with VERIF_SEED=%s; failing input: %s" % (rec.get("seed"), rec.get("input")))
-    return False
+    print("re-executing the recorded run of `./check C11 quick` with VERIF_SEED=%s; failing input: %s" % (rec.get("seed"), rec.get("input")))
+    return None
